@@ -90,6 +90,7 @@ func (c *Ctx) declareMem(name, as string) {
 	if !strings.HasPrefix(name, "MAP") && !strings.HasPrefix(name, "G_") {
 		c.memAxioms(t, vs, birthBase, name)
 	}
+	c.mapValueAxiom(t, name, birthBase)
 }
 
 // memPeek: current value of a declared memory in a state that has not touched it.
@@ -171,10 +172,14 @@ func (c *Ctx) epochMem(e int, name string) Term {
 			return c.epochMem(p.epoch, name)
 		}
 		t = get(info.parts[len(info.parts)-1])
+		parts := []Term{t}
 		for i := len(info.parts) - 2; i >= 0; i-- {
-			t = Ite(info.parts[i].reach, get(info.parts[i]), t)
+			pt := get(info.parts[i])
+			parts = append(parts, pt)
+			t = Ite(info.parts[i].reach, pt, t)
 		}
 		t = c.Def("ep."+name, t)
+		c.mergeOf[t.S] = parts
 	} else if info.frame {
 		as := c.memSort[name]
 		var old Term
@@ -194,6 +199,21 @@ func (c *Ctx) epochMem(e int, name string) Term {
 	}
 	c.epochCache[key] = t
 	return t
+}
+
+// mapValueAxiom: references stored as map values denote allocated objects.
+func (c *Ctx) mapValueAxiom(m Term, name string, bound int) {
+	if !strings.HasPrefix(name, "MAPV_") {
+		return
+	}
+	_, inner := arrSorts(m.Sort)
+	ks, vs := arrSorts(inner)
+	if vs != SRef {
+		return
+	}
+	c.assumes = append(c.assumes, Assume{declPos: len(c.decls), heapAx: true, why: "references stored in maps are allocated: " + name,
+		t: raw(fmt.Sprintf("(forall ((r Ref) (k %s)) (! (and (< (rroot (select (select %s r) k)) %d) (>= (rroot (select (select %s r) k)) 0)) :pattern ((select (select %s r) k))))",
+			ks, m.S, bound, m.S, m.S), SBool)})
 }
 
 // memAxioms: cells of not-yet-allocated objects are zero; stored references
@@ -804,7 +824,12 @@ func (c *Ctx) framedCopy(name, as string, old Term, frameB, zeroB int) Term {
 	_, vs := arrSorts(as)
 	if !strings.HasPrefix(name, "MAP") {
 		c.memAxioms(t, vs, zeroB, name)
+	} else {
+		c.mapValueAxiom(t, name, zeroB)
 	}
+	c.assumes = append(c.assumes, Assume{declPos: len(c.decls), heapAx: true, why: "a call leaves the cells of previously allocated objects unchanged: " + name,
+		t: raw(fmt.Sprintf("(forall ((r Ref)) (! (=> (< (rroot r) %d) (= (select %s r) (select %s r))) :pattern ((select %s r))))",
+			frameB, t.S, old.S, t.S), SBool)})
 	return t
 }
 
@@ -833,6 +858,7 @@ func (c *Ctx) allocFrame(st *State) {
 // (the address for flat memories, the array for element memories).
 func (c *Ctx) groundFrames(m Term, owner Term) {
 	if c.inQuant > 0 {
+		c.needQuantHeap = true // the quantified frame axioms of framedCopy are needed
 		return
 	}
 	for depth := 0; depth < 64; depth++ {
